@@ -583,6 +583,140 @@ Proof.
   apply (ca_runs_ok labels 0 None 0). lia.
 Qed.
 
+(** ** ca_d2s returns exactly the maximal runs of one positive label *)
+Definition run_ok (L : list nat) (s e : nat) : Prop :=
+  s < e <= length L /\
+  exists lab, 0 < lab /\ (forall m, s <= m < e -> nth m L 0 = lab) /\
+              (s = 0 \/ nth (s - 1) L 0 <> lab) /\
+              (e = length L \/ nth e L 0 <> lab).
+
+Definition ca_state_ok (L : list nat) (i : nat) (cur : option (nat * nat)) : Prop :=
+  match cur with
+  | None => i = 0 \/ nth (i - 1) L 0 = 0
+  | Some (s, lab) => s < i /\ 0 < lab /\ (forall m, s <= m < i -> nth m L 0 = lab) /\
+                     (s = 0 \/ nth (s - 1) L 0 <> lab)
+  end.
+
+Lemma skipn_cons_inv : forall (L : list nat) i x t,
+  skipn i L = x :: t -> i < length L /\ nth i L 0 = x /\ skipn (S i) L = t.
+Proof.
+  induction L as [|a L' IH]; intros i x t H.
+  - destruct i; discriminate.
+  - destruct i as [|i].
+    + simpl in H. inversion H; subst. simpl. split; [lia|]. split; reflexivity.
+    + simpl in H. destruct (IH i x t H) as [H1 [H2 H3]].
+      split; [simpl; lia|]. split; [exact H2 | exact H3].
+Qed.
+
+Lemma ca_runs_run_ok : forall L l i cur,
+  skipn i L = l -> ca_state_ok L i cur ->
+  forall s e, In (s, e) (ca_runs i cur l) -> run_ok L s e.
+Proof.
+  intros L. induction l as [|x t IH]; intros i cur Hsk Hst s e Hin.
+  - assert (Hlen : length L <= i).
+    { pose proof (skipn_length i L) as Hl. rewrite Hsk in Hl. simpl in Hl. lia. }
+    destruct cur as [[s0 lab]|]; simpl in Hin; [|destruct Hin].
+    destruct Hin as [Heq | []]. inversion Heq; subst s0 e.
+    destruct Hst as [Hs0 [Hlab [Hall Hstart]]].
+    assert (Hi : i <= length L).
+    { destruct (Nat.le_gt_cases i (length L)) as [Hle | Hgt]; [exact Hle|].
+      pose proof (Hall (i - 1) ltac:(lia)) as Hv.
+      rewrite nth_overflow in Hv by lia. lia. }
+    split; [lia|]. exists lab. split; [exact Hlab|]. split; [exact Hall|].
+    split; [exact Hstart|]. left. lia.
+  - destruct (skipn_cons_inv L i x t Hsk) as [Hi [Hx Hsk']].
+    cbn [ca_runs] in Hin. destruct cur as [[s0 lab]|].
+    + destruct Hst as [Hs0 [Hlab [Hall Hstart]]].
+      assert (Hclose : run_ok L s0 i \/ x = lab).
+      { destruct (Nat.eq_dec x lab) as [Heq | Hne]; [right; exact Heq|]. left.
+        split; [lia|]. exists lab. split; [exact Hlab|]. split; [exact Hall|].
+        split; [exact Hstart|]. right. lia. }
+      destruct (Nat.eqb_spec x lab) as [Heq | Hne].
+      * apply (IH (S i) (Some (s0, lab)) Hsk'); [|exact Hin].
+        split; [lia|]. split; [exact Hlab|]. split; [|exact Hstart].
+        intros m Hm. destruct (Nat.eq_dec m i) as [Hmi | Hmi].
+        -- subst m. lia.
+        -- apply Hall. lia.
+      * destruct Hclose as [Hclose | Habs]; [|contradiction].
+        destruct (0 <? x) eqn:Ex; destruct Hin as [Heq | Hin].
+        -- inversion Heq; subst. exact Hclose.
+        -- apply Nat.ltb_lt in Ex.
+           apply (IH (S i) (Some (i, x)) Hsk'); [|exact Hin].
+           split; [lia|]. split; [exact Ex|]. split.
+           ++ intros m Hm. assert (m = i) by lia. subst m. exact Hx.
+           ++ right. pose proof (Hall (i - 1) ltac:(lia)) as Hv. lia.
+        -- inversion Heq; subst. exact Hclose.
+        -- apply Nat.ltb_ge in Ex.
+           apply (IH (S i) None Hsk'); [|exact Hin].
+           right. replace (S i - 1) with i by lia. lia.
+    + destruct (0 <? x) eqn:Ex.
+      * apply Nat.ltb_lt in Ex.
+        apply (IH (S i) (Some (i, x)) Hsk'); [|exact Hin].
+        split; [lia|]. split; [exact Ex|]. split.
+        -- intros m Hm. assert (m = i) by lia. subst m. exact Hx.
+        -- destruct Hst as [Hz | Hz]; [left; exact Hz | right; lia].
+      * apply Nat.ltb_ge in Ex.
+        apply (IH (S i) None Hsk'); [|exact Hin].
+        right. replace (S i - 1) with i by lia. lia.
+Qed.
+
+(** every returned interval is a maximal run of one positive label *)
+Theorem ca_d2s_runs : forall labels s e, In (s, e) (ca_d2s labels) -> run_ok labels s e.
+Proof.
+  intros labels s e Hin.
+  apply (ca_runs_run_ok labels labels 0 None); [reflexivity | left; reflexivity | exact Hin].
+Qed.
+
+Lemma ca_runs_open_emitted : forall l i s lab,
+  exists e, i <= e /\ In (s, e) (ca_runs i (Some (s, lab)) l).
+Proof.
+  induction l as [|x t IH]; intros i s lab.
+  - exists i. split; [lia | left; reflexivity].
+  - cbn [ca_runs]. destruct (x =? lab).
+    + destruct (IH (S i) s lab) as [e [He Hin]]. exists e. split; [lia | exact Hin].
+    + exists i. split; [lia|]. destruct (0 <? x); left; reflexivity.
+Qed.
+
+Lemma ca_runs_cover : forall l i cur m,
+  (match cur with None => True | Some (s, _) => s <= i end) ->
+  m < length l -> 0 < nth m l 0 ->
+  exists s e, In (s, e) (ca_runs i cur l) /\ s <= i + m < e.
+Proof.
+  induction l as [|x t IH]; intros i cur m Hcur Hm Hpos.
+  - simpl in Hm. lia.
+  - cbn [ca_runs]. destruct m as [|m].
+    + simpl in Hpos. replace (0 <? x) with true by (symmetry; apply Nat.ltb_lt; lia).
+      destruct cur as [[s0 lab]|].
+      * destruct (x =? lab).
+        -- destruct (ca_runs_open_emitted t (S i) s0 lab) as [e [He Hin]].
+           exists s0, e. split; [exact Hin | lia].
+        -- destruct (ca_runs_open_emitted t (S i) i x) as [e [He Hin]].
+           exists i, e. split; [right; exact Hin | lia].
+      * destruct (ca_runs_open_emitted t (S i) i x) as [e [He Hin]].
+        exists i, e. split; [exact Hin | lia].
+    + simpl in Hm. simpl in Hpos.
+      replace (i + S m) with (S i + m) by lia.
+      destruct cur as [[s0 lab]|].
+      * destruct (x =? lab).
+        -- apply IH; [lia | lia | exact Hpos].
+        -- destruct (0 <? x).
+           ++ destruct (IH (S i) (Some (i, x)) m) as [s [e [Hin Hb]]]; [lia | lia | exact Hpos |].
+              exists s, e. split; [right; exact Hin | exact Hb].
+           ++ destruct (IH (S i) None m) as [s [e [Hin Hb]]]; [exact I | lia | exact Hpos |].
+              exists s, e. split; [right; exact Hin | exact Hb].
+      * destruct (0 <? x); apply IH; try lia; try exact I; exact Hpos.
+Qed.
+
+(** every positively labelled position is covered by a returned interval *)
+Theorem ca_d2s_cover : forall labels i,
+  i < length labels -> 0 < nth i labels 0 ->
+  exists s e, In (s, e) (ca_d2s labels) /\ s <= i < e.
+Proof.
+  intros labels i Hi Hpos.
+  destruct (ca_runs_cover labels 0 None i I Hi Hpos) as [s [e [Hin Hb]]].
+  exists s, e. split; [exact Hin | simpl in Hb; exact Hb].
+Qed.
+
 (** ** Refutation of the round trip for the original label-blind dense_to_sparse *)
 Fixpoint ca_runs_nolabel (i : nat) (cur : option nat) (l : list nat) : list (nat * nat) :=
   match l with
@@ -829,3 +963,315 @@ Proof.
     rewrite (sub_find_hit anoms 0 n i j 1 k s e cols Hiv Hnth Hin Hc). reflexivity.
   - intros H. rewrite sub_find_miss by exact H. reflexivity.
 Qed.
+
+(** ** Round trip for subset anomalies *)
+
+Lemma sub_s2d_cell_iff : forall n p anoms i j k s e cols,
+  anoms_ok n p anoms -> i < n -> j < p ->
+  nth_error anoms k = Some (s, e, cols) ->
+  (nth j (nth i (sub_s2d n p anoms) []) 0 = S k <-> s <= i < e /\ In j cols).
+Proof.
+  intros n p anoms i j k s e cols Hok Hi Hj Hnth. split.
+  - intros Hv. rewrite sub_s2d_nth in Hv by assumption.
+    destruct (sub_find i j anoms 1) as [v|] eqn:E; [|discriminate].
+    subst v. destruct (sub_find_some anoms i j 1 (S k) E)
+      as [k' [s' [e' [cols' [Hk [Hnth' [Hin Hc]]]]]]].
+    assert (k' = k) by lia. subst k'. rewrite Hnth in Hnth'. inversion Hnth'; subst.
+    split; assumption.
+  - intros [Hin Hc].
+    destruct (sub_s2d_label n p anoms i j Hok Hi Hj) as [H _].
+    apply (H k s e cols Hnth Hin Hc).
+Qed.
+
+Lemma sub_s2d_cell_le : forall n p anoms i j,
+  anoms_ok n p anoms -> i < n -> j < p ->
+  nth j (nth i (sub_s2d n p anoms) []) 0 <= length anoms.
+Proof.
+  intros n p anoms i j Hok Hi Hj. rewrite sub_s2d_nth by assumption.
+  destruct (sub_find i j anoms 1) as [v|] eqn:E; [|lia].
+  destruct (sub_find_some anoms i j 1 v E) as [k [s [e [cols [Hk [Hnth _]]]]]].
+  assert (k < length anoms) by (apply nth_error_Some; rewrite Hnth; discriminate).
+  lia.
+Qed.
+
+Lemma anoms_ok_nth : forall n p anoms k s e cols,
+  anoms_ok n p anoms -> nth_error anoms k = Some (s, e, cols) ->
+  s < e /\ e <= n /\ cols_ok p cols.
+Proof.
+  intros n p anoms k s e cols [Hiv Hcols] Hnth.
+  pose proof (nth_error_In _ _ Hnth) as Hin.
+  assert (Hin' : In (s, e) (map iv_of anoms)).
+  { apply in_map_iff. exists (s, e, cols). split; [reflexivity | exact Hin]. }
+  pose proof (ivs_from_In _ _ _ _ _ Hiv Hin') as Hb.
+  rewrite Forall_forall in Hcols. pose proof (Hcols _ Hin) as Hc. simpl in Hc.
+  split; [lia|]. split; [lia | exact Hc].
+Qed.
+
+Lemma fold_max_le : forall l b,
+  (forall x, In x l -> x <= b) -> fold_right Nat.max 0 l <= b.
+Proof.
+  induction l as [|x t IH]; intros b H; simpl.
+  - lia.
+  - pose proof (H x (or_introl eq_refl)) as Hx.
+    assert (Ht : fold_right Nat.max 0 t <= b) by (apply IH; intros y Hy; apply H; right; exact Hy).
+    lia.
+Qed.
+
+Lemma fold_max_ge : forall l x, In x l -> x <= fold_right Nat.max 0 l.
+Proof.
+  induction l as [|y t IH]; intros x Hin; simpl.
+  - destruct Hin.
+  - destruct Hin as [Heq | Hin].
+    + subst. lia.
+    + pose proof (IH x Hin). lia.
+Qed.
+
+Lemma sub_s2d_max_label : forall n p anoms,
+  anoms_ok n p anoms -> max_label (sub_s2d n p anoms) = length anoms.
+Proof.
+  intros n p anoms Hok. pose proof (sub_s2d_pshape n p anoms) as Hsh.
+  apply Nat.le_antisymm.
+  - unfold max_label. apply fold_max_le. intros x Hx.
+    apply in_map_iff in Hx. destruct Hx as [r [Hx Hr]]. subst x.
+    apply fold_max_le. intros x Hx.
+    destruct Hsh as [Hlen Hrows].
+    destruct (In_nth _ r [] Hr) as [i [Hi Hri]]. subst r.
+    destruct (In_nth _ x 0 Hx) as [j [Hj Hxj]]. subst x.
+    rewrite Hlen in Hi. rewrite (Hrows i Hi) in Hj.
+    apply sub_s2d_cell_le; assumption.
+  - destruct (length anoms) as [|K] eqn:EK; [lia|].
+    destruct (nth_error anoms K) as [[[s e] cols]|] eqn:Hnth.
+    2:{ apply nth_error_None in Hnth. lia. }
+    destruct (anoms_ok_nth n p anoms K s e cols Hok Hnth) as [Hse [Hen [Hne [_ Hall]]]].
+    destruct cols as [|j0 cols']; [congruence|].
+    assert (Hj0 : j0 < p) by (inversion Hall; assumption).
+    assert (Hcell : nth j0 (nth s (sub_s2d n p anoms) []) 0 = S K).
+    { apply (sub_s2d_cell_iff n p anoms s j0 K s e (j0 :: cols')); try assumption; try lia.
+      split; [lia | left; reflexivity]. }
+    destruct Hsh as [Hlen Hrows].
+    rewrite <- Hcell. unfold max_label.
+    apply Nat.le_trans with (fold_right Nat.max 0 (nth s (sub_s2d n p anoms) [])).
+    + apply fold_max_ge. apply nth_In. rewrite Hrows by lia. exact Hj0.
+    + apply fold_max_ge. apply in_map. apply nth_In. lia.
+Qed.
+
+Lemma rows_with_eq : forall mat k,
+  rows_with mat k = filter (fun i => existsb (Nat.eqb k) (nth i mat [])) (seq 0 (length mat)).
+Proof.
+  intros mat k. unfold rows_with. rewrite (combine_seq_map _ [] mat).
+  rewrite filter_map_comm, map_map. cbn [fst snd]. apply map_id.
+Qed.
+
+Lemma filter_range_seq : forall s e n,
+  s <= e -> e <= n ->
+  filter (fun i => (s <=? i) && (i <? e)) (seq 0 n) = seq s (e - s).
+Proof.
+  intros s e n Hse Hen.
+  replace n with (s + ((e - s) + (n - e))) by lia.
+  rewrite seq_app. cbn [Nat.add]. rewrite seq_app. replace (s + (e - s)) with e by lia.
+  rewrite !filter_app.
+  rewrite (filter_all_false _ _ (seq 0 s)).
+  2:{ intros i Hi. apply in_seq in Hi.
+      replace (s <=? i) with false by (symmetry; apply Nat.leb_gt; lia). reflexivity. }
+  rewrite (filter_all_true _ _ (seq s (e - s))).
+  2:{ intros i Hi. apply in_seq in Hi.
+      replace (s <=? i) with true by (symmetry; apply Nat.leb_le; lia).
+      replace (i <? e) with true by (symmetry; apply Nat.ltb_lt; lia). reflexivity. }
+  rewrite (filter_all_false _ _ (seq e (n - e))).
+  2:{ intros i Hi. apply in_seq in Hi.
+      replace (i <? e) with false by (symmetry; apply Nat.ltb_ge; lia).
+      apply andb_false_r. }
+  simpl. apply app_nil_r.
+Qed.
+
+Lemma existsb_row_iff : forall (row : list nat) k,
+  existsb (Nat.eqb k) row = true <-> exists j, j < length row /\ nth j row 0 = k.
+Proof.
+  intros row k. rewrite existsb_exists. split.
+  - intros [x [Hin Heq]]. apply Nat.eqb_eq in Heq. subst x.
+    destruct (In_nth _ _ 0 Hin) as [j [Hj Hx]]. exists j. split; assumption.
+  - intros [j [Hj Hx]]. exists k. split; [|apply Nat.eqb_refl].
+    rewrite <- Hx. apply nth_In. exact Hj.
+Qed.
+
+Lemma sub_rows_with : forall n p anoms k s e cols,
+  anoms_ok n p anoms -> nth_error anoms k = Some (s, e, cols) ->
+  rows_with (sub_s2d n p anoms) (S k) = seq s (e - s).
+Proof.
+  intros n p anoms k s e cols Hok Hnth.
+  destruct (anoms_ok_nth n p anoms k s e cols Hok Hnth) as [Hse [Hen [Hne [_ Hall]]]].
+  destruct (sub_s2d_pshape n p anoms) as [Hlen Hrows].
+  rewrite rows_with_eq, Hlen.
+  rewrite <- (filter_range_seq s e n) by lia.
+  apply filter_ext_in. intros i Hi. apply in_seq in Hi.
+  apply eq_iff_eq_true. rewrite existsb_row_iff, (Hrows i) by lia. split.
+  - intros [j [Hj Hv]].
+    apply (sub_s2d_cell_iff n p anoms i j k s e cols Hok) in Hv; try assumption; try lia.
+    destruct Hv as [Hin _].
+    apply andb_true_iff. split; [apply Nat.leb_le | apply Nat.ltb_lt]; lia.
+  - intros Hb. apply andb_true_iff in Hb. destruct Hb as [Hb1 Hb2].
+    apply Nat.leb_le in Hb1. apply Nat.ltb_lt in Hb2.
+    destruct cols as [|j0 cols']; [congruence|].
+    assert (Hj0 : j0 < p) by (inversion Hall; assumption).
+    exists j0. split; [exact Hj0|].
+    apply (sub_s2d_cell_iff n p anoms i j0 k s e (j0 :: cols') Hok); try assumption; try lia.
+    split; [lia | left; reflexivity].
+Qed.
+
+Lemma sub_cols_with : forall n p anoms k s e cols,
+  anoms_ok n p anoms -> nth_error anoms k = Some (s, e, cols) ->
+  cols_with (sub_s2d n p anoms) p (S k) = filter (fun j => memb j cols) (seq 0 p).
+Proof.
+  intros n p anoms k s e cols Hok Hnth.
+  destruct (anoms_ok_nth n p anoms k s e cols Hok Hnth) as [Hse [Hen _]].
+  destruct (sub_s2d_pshape n p anoms) as [Hlen Hrows].
+  unfold cols_with. apply filter_ext_in. intros j Hj. apply in_seq in Hj.
+  apply eq_iff_eq_true. rewrite existsb_exists, memb_In. split.
+  - intros [r [Hr Hv]]. apply Nat.eqb_eq in Hv.
+    destruct (In_nth _ r [] Hr) as [i [Hi Hri]]. subst r. rewrite Hlen in Hi.
+    apply (sub_s2d_cell_iff n p anoms i j k s e cols Hok) in Hv; try assumption; try lia.
+    destruct Hv as [_ Hc]. exact Hc.
+  - intros Hc. exists (nth s (sub_s2d n p anoms) []). split.
+    + apply nth_In. lia.
+    + apply Nat.eqb_eq.
+      apply (sub_s2d_cell_iff n p anoms s j k s e cols Hok); try assumption; try lia.
+      split; [lia | exact Hc].
+Qed.
+
+Lemma last_cons : forall (A : Type) (l : list A) (a d : A), last (a :: l) d = last l a.
+Proof.
+  intros A l. induction l as [|b t IH]; intros a d.
+  - reflexivity.
+  - change (last (a :: b :: t) d) with (last (b :: t) d).
+    rewrite (IH b d), (IH b a). reflexivity.
+Qed.
+
+Lemma last_seq : forall m s, last (seq (S s) m) s = s + m.
+Proof.
+  induction m as [|m IH]; intros s.
+  - simpl. lia.
+  - cbn [seq]. rewrite last_cons. rewrite IH. lia.
+Qed.
+
+Lemma flat_map_seq_map : forall (A B : Type) (d : A) (g : A -> B) (f : nat -> list B)
+                                (l : list A) o,
+  (forall k, k < length l -> f (o + k) = [g (nth k l d)]) ->
+  flat_map f (seq o (length l)) = map g l.
+Proof.
+  intros A B d g f l. induction l as [|x t IH]; intros o H.
+  - reflexivity.
+  - pose proof (H 0 ltac:(simpl; lia)) as H0. rewrite Nat.add_0_r in H0.
+    cbn [length seq flat_map map]. rewrite H0. cbn [nth app]. f_equal.
+    apply IH. intros k Hk. replace (S o + k) with (o + S k) by lia.
+    rewrite H by (simpl; lia). reflexivity.
+Qed.
+
+Theorem sub_roundtrip : forall n p anoms,
+  anoms_ok n p anoms ->
+  sub_d2s p (sub_s2d n p anoms) =
+  map (fun a : anom3 => (fst a, filter (fun j => memb j (snd a)) (seq 0 p))) anoms.
+Proof.
+  intros n p anoms Hok. unfold sub_d2s. rewrite sub_s2d_max_label by exact Hok.
+  apply (flat_map_seq_map _ _ (0, 0, [])).
+  intros k Hk. cbn [Nat.add].
+  pose proof (nth_error_nth' anoms (0, 0, []) Hk) as Hnth.
+  unfold anom3 in *. cbv beta.
+  destruct (nth k anoms (0, 0, [])) as [[s e] cols].
+  destruct (anoms_ok_nth n p anoms k s e cols Hok Hnth) as [Hse _].
+  rewrite (sub_rows_with n p anoms k s e cols Hok Hnth).
+  rewrite (sub_cols_with n p anoms k s e cols Hok Hnth).
+  destruct (e - s) as [|m] eqn:E; [lia|].
+  cbn [seq fst snd]. rewrite last_seq.
+  replace (S (s + m)) with e by lia. reflexivity.
+Qed.
+
+Lemma cols_filter_permutation : forall p cols,
+  NoDup cols -> Forall (fun j => j < p) cols ->
+  Permutation (filter (fun j => memb j cols) (seq 0 p)) cols.
+Proof.
+  intros p cols Hnd Hall. apply NoDup_Permutation.
+  - apply NoDup_filter. apply seq_NoDup.
+  - exact Hnd.
+  - intros j. rewrite filter_In, in_seq, memb_In. split.
+    + intros [_ H]. exact H.
+    + intros H. split; [|exact H]. rewrite Forall_forall in Hall.
+      pose proof (Hall j H). lia.
+Qed.
+
+(** the returned column lists are strictly increasing *)
+Lemma cols_filter_sorted : forall p cols,
+  StronglySorted lt (filter (fun j => memb j cols) (seq 0 p)).
+Proof.
+  intros p cols. generalize 0 as o. induction p as [|p IH]; intros o.
+  - constructor.
+  - cbn [seq filter]. destruct (memb o cols).
+    + constructor; [apply IH|]. apply Forall_forall. intros x Hx.
+      apply filter_In in Hx. destruct Hx as [Hx _]. apply in_seq in Hx. lia.
+    + apply IH.
+Qed.
+
+(** two strictly increasing lists with the same elements are equal *)
+Lemma sorted_lt_ext : forall l1 l2 : list nat,
+  StronglySorted lt l1 -> StronglySorted lt l2 ->
+  (forall x, In x l1 <-> In x l2) -> l1 = l2.
+Proof.
+  induction l1 as [|x t1 IH]; intros l2 H1 H2 Hext.
+  - destruct l2 as [|y t2]; [reflexivity|].
+    exfalso. apply (proj2 (Hext y)). left. reflexivity.
+  - destruct l2 as [|y t2].
+    + exfalso. apply (proj1 (Hext x)). left. reflexivity.
+    + inversion H1 as [|? ? Hs1 Hall1]; subst. inversion H2 as [|? ? Hs2 Hall2]; subst.
+      rewrite Forall_forall in Hall1, Hall2.
+      assert (Hxy : x = y).
+      { destruct (proj1 (Hext x) (or_introl eq_refl)) as [Hy | Hy]; [symmetry; exact Hy|].
+        destruct (proj2 (Hext y) (or_introl eq_refl)) as [Hx | Hx]; [exact Hx|].
+        pose proof (Hall1 y Hx). pose proof (Hall2 x Hy). lia. }
+      subst y. f_equal. apply IH; [exact Hs1 | exact Hs2 |].
+      intros z. split; intros Hz.
+      * destruct (proj1 (Hext z) (or_intror Hz)) as [Hzx | Hz']; [|exact Hz'].
+        pose proof (Hall1 z Hz). lia.
+      * destruct (proj2 (Hext z) (or_intror Hz)) as [Hzx | Hz']; [|exact Hz'].
+        pose proof (Hall2 z Hz). lia.
+Qed.
+
+Lemma cols_filter_id : forall p cols,
+  StronglySorted lt cols -> Forall (fun j => j < p) cols ->
+  filter (fun j => memb j cols) (seq 0 p) = cols.
+Proof.
+  intros p cols Hs Hall. apply sorted_lt_ext.
+  - apply cols_filter_sorted.
+  - exact Hs.
+  - intros j. rewrite filter_In, in_seq, memb_In. split.
+    + intros [_ H]. exact H.
+    + intros H. split; [|exact H]. rewrite Forall_forall in Hall.
+      pose proof (Hall j H). lia.
+Qed.
+
+(** when every column list is given in increasing order the round trip is the identity *)
+Theorem sub_roundtrip_sorted : forall n p anoms,
+  anoms_ok n p anoms ->
+  Forall (fun a : anom3 => StronglySorted lt (snd a)) anoms ->
+  sub_d2s p (sub_s2d n p anoms) = anoms.
+Proof.
+  intros n p anoms Hok Hsorted. rewrite (sub_roundtrip n p anoms Hok).
+  rewrite <- (map_id anoms) at 2. apply map_ext_in. intros [[s e] cols] Hin.
+  destruct Hok as [_ Hcols]. rewrite Forall_forall in Hcols, Hsorted.
+  pose proof (Hcols _ Hin) as [_ [_ Hall]]. pose proof (Hsorted _ Hin) as Hs.
+  cbn [fst snd] in *. rewrite (cols_filter_id p cols Hs Hall). reflexivity.
+Qed.
+
+Print Assumptions cd_s2d_label.
+Print Assumptions cd_roundtrip.
+Print Assumptions cd_d2s_spec.
+Print Assumptions cd_d2s_ok.
+Print Assumptions ca_s2d_label.
+Print Assumptions ca_roundtrip.
+Print Assumptions ca_d2s_spec.
+Print Assumptions ca_d2s_runs.
+Print Assumptions ca_d2s_cover.
+Print Assumptions ca_roundtrip_adjacent_refuted.
+Print Assumptions sub_s2d_shape.
+Print Assumptions sub_s2d_label.
+Print Assumptions sub_roundtrip.
+Print Assumptions cols_filter_permutation.
+Print Assumptions sub_roundtrip_sorted.
